@@ -313,6 +313,7 @@ def _run(ctx):
         "distinct_nontrivial": len(nontriv),
         "rule": "a case is non-trivial when its tree has a comma separated list with at least two elements, an AND or "
                 "OR, a join, an alias, or LIMIT together with OFFSET; distinct by rendered text",
+        "go_trees_not_expressible_in_Ast_v": len(sf.UNREP),
         "traces_validated_against_impl": len(cases),
         "case_kinds": kinds,
         "statement_kinds": stmts,
